@@ -318,6 +318,8 @@ def corpus(prop):
     # known finding K4-C15: the trees' separator is ignored when the result is rebuilt
     add("K4-sep", ["r", {}, [_leaf("b")]], ["r", {}, [_leaf("c")]], True, [], ".")
     add("K4-sep", ["r", {}, [_leaf("b", x=1)]], ["r", {}, [_leaf("b", x=2)]], False, ["x"], "|")
+    add("K4-sep", ["r", {}, [_leaf("b")]], ["r", {}, []], True, [], ".")        # one row: a single node named ".r.b (-)"
+    add("K4-sep", ["r", {}, [["b", {}, [_leaf("c")]]]], ["r", {}, [["b", {}, [_leaf("d")]]]], False, [], "\\")
     return out
 
 
